@@ -88,10 +88,11 @@ def register_spec_fun(name, args, res, smtname):
 class SpecEval:
     """Compile a contract expression to an SMT term over an environment of symbolic values."""
 
-    def __init__(self, engine, env, old_env=None):
+    def __init__(self, engine, env, old_env=None, glob=None):
         self.e = engine
         self.env = env
         self.old_env = old_env
+        self.glob = glob
 
     def compile_bool(self, src):
         if isinstance(src, str):
@@ -119,6 +120,8 @@ class SpecEval:
         c = self.e.spec_constant(n.id)
         if c is not None:
             return c
+        if self.glob is not None and n.id in self.glob:
+            return self.e.lift(PyC(self.glob[n.id]))
         raise OutOfSubset(f"contract expression: unknown name {n.id}", n)
 
     def ev_Tuple(self, n):
@@ -257,14 +260,14 @@ class SpecEval:
                 hi = asI(self.ev(n.args[1]))
                 lo = asI(self.ev(n.args[2])) if len(n.args) > 2 else "0"
                 q = fresh_name("q" + var)
-                sub = SpecEval(self.e, {**self.env, var: mkI(q)}, self.old_env)
+                sub = SpecEval(self.e, {**self.env, var: mkI(q)}, self.old_env, self.glob)
                 body = asB(sub.ev(lam.body))
                 rng = f"(and (<= {lo} {q}) (< {q} {hi}))"
                 if f == "forall":
                     return mkB(f"(forall (({q} Int)) (=> {rng} {body}))")
                 return mkB(f"(exists (({q} Int)) (and {rng} {body}))")
             if f == "old":
-                sub = SpecEval(self.e, self.old_env or self.env, None)
+                sub = SpecEval(self.e, self.old_env or self.env, None, self.glob)
                 return sub.ev(n.args[0])
             if f == "len":
                 v = self.ev(n.args[0])
@@ -295,6 +298,22 @@ class SpecEval:
                 return mkB(f"(seq_has_jsoneq (seqof {asV(self.ev(n.args[0]))}) {asV(self.ev(n.args[1]))} 0)")
             if f == "member_py":
                 return mkB(f"(seq_has_pyeq (seqof {asV(self.ev(n.args[0]))}) {asV(self.ev(n.args[1]))} 0)")
+            if f == "eff_required":
+                el = self.ev(n.args[0])
+                ex = self.e.lift(self.e.spec_getattr(el, "required"))
+                pr = self.e.lift(self.e.spec_getattr(el, "properties"))
+                prq = self.e.lift(self.e.spec_getattr(pr, "required"))
+                a = f"(ite (truthy {asV(ex)}) (seqof {asV(ex)}) (as seq.empty (Seq V)))"
+                b = f"(ite (truthy {asV(pr)}) (seqof {asV(prq)}) (as seq.empty (Seq V)))"
+                return Val(f"(v_list (seq.++ {a} {b}))", kind="list")
+            if f == "key_at":
+                d = self.ev(n.args[0])
+                j = self.ev(n.args[1])
+                return Val(f"(v_str (pkey (seq.nth (ditems {asV(d)}) {asI(j)})))", kind="str")
+            if f == "val_at":
+                d = self.ev(n.args[0])
+                j = self.ev(n.args[1])
+                return Val(f"(pval (seq.nth (ditems {asV(d)}) {asI(j)}))")
             if f == "attr_absent":
                 base = self.ev(n.args[0])
                 name = n.args[1].value
@@ -308,3 +327,9 @@ class SpecEval:
                 self.e.use_spec_fun(f)
                 return Val(f"({name} {' '.join(args)})" if args else name, res if res != "V" else "V")
         raise OutOfSubset(f"contract call {ast.unparse(n.func)}", n)
+
+SPEC_FUNS.update({
+    "sem": (["V", "V"], "B", "sem"), "build": (["V", "V"], "V", "build"),
+    "all_present": (["V", "V"], "B", "all_present"), "rbd": (["V"], "V", "rbd"),
+    "props_accepts": (["V", "S"], "B", "props_accepts"),
+})
